@@ -15,4 +15,4 @@ CONSTANTS
   OOB = TRUE
   REORIENT = FALSE
   BIGSET = TRUE
-  SAMPLE = 0
+  SAMPLE = 53
